@@ -12,6 +12,11 @@ status_t LogTimeAux(int, const char *, ...) {return B_NO_ERROR;}
 status_t LogStackTrace(int, uint32) {return B_NO_ERROR;}
 void WarnOutOfMemory(const char *, int) {}
 #endif
+#ifdef VERIF_STUB_ATOULL_HASH
+// referenced by String.cpp but not reachable from the String harnesses; defined in system/SetupSystem.cpp, which drags in the whole library.  Reaching one natively is an error.
+uint64 Atoull(const char *) {printf("REPLAY: native stub Atoull() reached\n"); fflush(stdout); abort();}
+uint32 CalculateHashCode(const void *, size_t, uint32) {printf("REPLAY: native stub CalculateHashCode() reached\n"); fflush(stdout); abort();}
+#endif
 #ifndef VERIF_HAVE_SETUPSYSTEM
 void Crash(const char * file, int line) {printf("REPLAY: muscle::Crash() called from %s:%i\n", file, line); fflush(stdout); abort();}
 #endif
